@@ -29,7 +29,11 @@ func c10GenHeader(t *rapid.T) string {
 		name := rapid.SampledFrom(c10FieldNames).Draw(t, "name")
 		b.WriteString(name)
 		b.WriteString(":")
-		switch rapid.IntRange(0, 9).Draw(t, "valuekind") {
+		switch rapid.IntRange(0, 10).Draw(t, "valuekind") {
+		case 10:
+			// folded with a bare LF (the endpoint's parser takes it and keeps the bytes; libmilter's convention for the
+			// fields a milter adds)
+			b.WriteString(" first line\n\tsecond line")
 		case 0:
 			// empty value
 		case 1:
@@ -250,7 +254,11 @@ func c10Run(sc qScenario) (vs []ev.V) {
 		}
 		if a.Header != nil || a.Body != nil {
 			if !bytes.Equal(a.Header, want.Bytes()) {
-				vs = append(vs, ev.Vf("content:header-differs", "%s: header handed to the target\n%q\naccepted\n%q", where, a.Header, want.Bytes()))
+				sig := "content:header-differs"
+				if bytes.Equal(bytes.ReplaceAll(a.Header, []byte("\r\n"), []byte("\n")), bytes.ReplaceAll(want.Bytes(), []byte("\r\n"), []byte("\n"))) {
+					sig = "content:header-differs:bare-LF-became-CRLF-after-reload"
+				}
+				vs = append(vs, ev.Vf(sig, "%s: header handed to the target\n%q\naccepted\n%q", where, a.Header, want.Bytes()))
 			}
 			if !bytes.Equal(a.Body, []byte(m.Body)) {
 				vs = append(vs, ev.Vf("content:body-differs", "%s: body handed to the target differs: got %d bytes %.80q..., accepted %d bytes %.80q...", where, len(a.Body), a.Body, len(m.Body), string(m.Body)))
